@@ -57,13 +57,17 @@ func mkTuple(sym byte, i, k int) *openfgav1.Tuple { return &openfgav1.Tuple{Key:
 func mkObjTuple(sym byte, i, k int) *openfgav1.Tuple {
 	return &openfgav1.Tuple{Key: &openfgav1.TupleKey{Object: "doc:" + string(sym), Relation: "viewer", User: fmt.Sprintf("user:u%d%d", i, k)}}
 }
-func expObjTuple(sym byte, i, k int) string { return fmt.Sprintf("doc:%c#viewer@user:u%d%d", sym, i, k) }
+func expObjTuple(sym byte, i, k int) string {
+	return fmt.Sprintf("doc:%c#viewer@user:u%d%d", sym, i, k)
+}
 
 // ordered by user (storage.UserMapper).
 func mkUserTuple(sym byte, i, k int) *openfgav1.Tuple {
 	return &openfgav1.Tuple{Key: &openfgav1.TupleKey{Object: fmt.Sprintf("doc:o%d%d", i, k), Relation: "viewer", User: "user:" + string(sym)}}
 }
-func expUserTuple(sym byte, i, k int) string { return fmt.Sprintf("doc:o%d%d#viewer@user:%c", i, k, sym) }
+func expUserTuple(sym byte, i, k int) string {
+	return fmt.Sprintf("doc:o%d%d#viewer@user:%c", i, k, sym)
+}
 
 var objTupleView = view[*openfgav1.Tuple]{show: func(t *openfgav1.Tuple) string { return showTK(t.GetKey()) }, sym: func(t *openfgav1.Tuple) byte {
 	if o := t.GetKey().GetObject(); len(o) == 5 {
@@ -98,8 +102,10 @@ func det(r refIter) *detChecker { return &detChecker{ref: r} }
 func one(r *rin) *refConcat { return &refConcat{ins: []*rin{r}} }
 
 var (
-	cStr       = newCarrier(mkStr, expStr)
-	cDoc       = newCarrier(mkDoc, expDoc)
+	cStr = newCarrier(mkStr, expStr)
+	cDoc = newCarrier(mkDoc, expDoc)
+	// items without identity: the whole string is the ordering key, so that a skip target can equal an item
+	cPlain     = newCarrier(func(sym byte, i, k int) string { return "doc:" + string(sym) }, func(sym byte, i, k int) string { return fmt.Sprintf("doc:%c", sym) })
 	cTK        = newCarrier(mkTK, expTK)
 	cTuple     = newCarrier(mkTuple, expTK)
 	cObjTuple  = newCarrier(mkObjTuple, expObjTuple)
@@ -224,8 +230,10 @@ func adapters() []*adapter {
 	})
 	as = append(as, &adapter{
 		name: "storage.NewConditionsFilteredTupleKeyIterator", arity: 1, params: 27,
-		paramDesc: func(p int) string { return "condition filter " + verdictDesc(verdicts3(p)) + " (error verdict returns (true, err))" },
-		doc:       "TupleKeyConditionFilterFunc: 'Errors will be treated as false. If none of the tuples are valid AND there are errors, Next() will return the last error'; Head: 'calling consecutive Head will yield consistent result. Further, calling Head following by Next will also yield consistent result'",
+		paramDesc: func(p int) string {
+			return "condition filter " + verdictDesc(verdicts3(p)) + " (error verdict returns (true, err))"
+		},
+		doc: "TupleKeyConditionFilterFunc: 'Errors will be treated as false. If none of the tuples are valid AND there are errors, Next() will return the last error'; Head: 'calling consecutive Head will yield consistent result. Further, calling Head following by Next will also yield consistent result'",
 		build: func(e *env, ins []InSpec, p int) (implIter, checker) {
 			v := verdicts3(p)
 			s := cTK.stub(e, 0, ins[0])
